@@ -258,6 +258,10 @@ func (p *prefixInjector) Decide(c simkube.Call) simkube.Outcome {
 	outs := writeOuts
 	if !c.Write {
 		outs = readOuts
+		if p.fi.NotFoundReads && c.Verb == "get" && (p.fi.NotFoundFilter == nil || p.fi.NotFoundFilter(c)) {
+			// a cache that has not seen the object answers 404
+			outs = append(append([]simkube.Outcome{}, readOuts...), simkube.NotFound)
+		}
 	}
 	d := decision{label: "api:" + c.String(), call: c.String(), n: len(outs)}
 	for _, o := range outs {
